@@ -227,6 +227,72 @@ pub fn seq_scenario(q: BoxedStrategy<QCfg>, max_len: usize, add_stream_on_mpmc: 
         .boxed()
 }
 
+/// Sequential "crowd" histories for C14: many distinct tasks parked at the same time (10..13 sink
+/// tasks on a full queue, or stream tasks on an empty one), then the one event that must wake all of
+/// them.  `FutWait::notify` treats a parked list longer than its inline buffer differently.
+pub fn crowd_scenario(opts: ExecOpts) -> BoxedStrategy<Scenario> {
+    let q = qcfg(BOTH, FutMode::Always, prop_oneof![Just(1u8), Just(2u8), Just(4u8)].boxed(), wait_any());
+    (q, 6usize..=13, any::<bool>(), 0u8..5, any::<bool>(), vec(seq_op(SeqAlphabet { futures_ops: true, add_stream: false, teardown: false }), 0..6))
+        .prop_map(move |(q, k, sink_side, event, lagging, tail)| {
+            let n = q.n();
+            let bcast = q.flavour == Flavour::Broadcast;
+            let mut ops: Vec<Op> = Vec::new();
+            if sink_side {
+                // receivers: [initial] (+ lagging stream on broadcast)
+                let lag = lagging && bcast;
+                if lag {
+                    ops.push(Op::AddStream { rx: 0 });
+                }
+                for _ in 0..n {
+                    ops.push(Op::TrySend { tx: 0 });
+                }
+                if lag {
+                    // only the lagging stream keeps the queue full
+                    for _ in 0..n {
+                        ops.push(Op::TryRecv { rx: sel(0, 2) });
+                    }
+                }
+                for _ in 1..k {
+                    ops.push(Op::CloneTx { tx: 0 });
+                }
+                for i in 0..k {
+                    ops.push(Op::StartSend { tx: sel(i, k), by_ref: i % 2 == 0 });
+                }
+                let nrx = if lag { 2 } else { 1 };
+                let last = sel(nrx - 1, nrx);
+                ops.push(match event {
+                    0 => Op::TryRecv { rx: last },
+                    1 => Op::DropRx { rx: last },
+                    2 => Op::UnsubRx { rx: last },
+                    3 => Op::Poll { rx: last, by_ref: false },
+                    _ => Op::Recv { rx: last },
+                });
+            } else {
+                // k stream tasks on an empty queue: shared handles and (broadcast) separate streams
+                for i in 1..k {
+                    if bcast && i % 2 == 0 {
+                        ops.push(Op::AddStream { rx: 0 });
+                    } else {
+                        ops.push(Op::CloneRx { rx: 0 });
+                    }
+                }
+                for i in 0..k {
+                    ops.push(Op::Poll { rx: sel(i, k), by_ref: i % 2 == 0 });
+                }
+                ops.push(match event {
+                    0 => Op::TrySend { tx: 0 },
+                    1 => Op::StartSend { tx: 0, by_ref: false },
+                    2 => Op::DropTx { tx: 0 },
+                    3 => Op::UnsubTx { tx: 0 },
+                    _ => Op::Send { tx: 0, max: 1 },
+                });
+            }
+            ops.extend(tail);
+            Scenario { q, progs: vec![Prog { ops, ret: false }], sched: Schedule::none(), opts: opts.clone() }
+        })
+        .boxed()
+}
+
 // ---- concurrent traffic scenarios (E1) ----------------------------------------------------
 
 #[derive(Clone, Debug)]
@@ -797,10 +863,15 @@ pub fn removal_scenario(opts: ExecOpts) -> BoxedStrategy<Scenario> {
         any::<bool>(),                 // third stream
         any::<bool>(),                 // sink tasks
         vec(drain_how(), 2),
+        // a second slow stream with one handle, removed by a thread of its own at the same time
+        // (two removals colliding on the stream list), and add_stream+drop rounds performed by
+        // the third stream's thread while the removals happen
+        (any::<bool>(), 0u8..3, any::<bool>(), prop_oneof![2 => Just(0u8), 1 => Just(1u8), 1 => Just(2u8)]),
         schedule(500),
     )
-        .prop_map(move |(q, slow_handles, removers, unsub, pre, producers, third, sink, hows, sched)| {
+        .prop_map(move |(q, slow_handles, removers, unsub, pre, producers, third, sink, hows, (second, pre2, unsub2, side_adds), sched)| {
             let bcast = q.flavour == Flavour::Broadcast;
+            let second = second && bcast;
             let mut main = Vec::new();
             let mut table: Vec<&str> = vec!["A"];
             // slow stream (broadcast) or extra handles of the only stream (mpmc)
@@ -817,6 +888,10 @@ pub fn removal_scenario(opts: ExecOpts) -> BoxedStrategy<Scenario> {
             if third && bcast {
                 main.push(Op::AddStream { rx: 0 });
                 table.push("T");
+            }
+            if second {
+                main.push(Op::AddStream { rx: 0 });
+                table.push("S2");
             }
             for _ in 1..producers.len() {
                 main.push(Op::CloneTx { tx: 0 });
@@ -869,11 +944,28 @@ pub fn removal_scenario(opts: ExecOpts) -> BoxedStrategy<Scenario> {
                 }
                 progs.push(Prog { ops, ret: false });
             }
+            if second {
+                let p = progs.len() as u8;
+                let s = take(&mut table, "S2");
+                main.push(Op::Spawn { prog: p, tx: vec![], rx: vec![s] });
+                let mut ops = Vec::new();
+                for _ in 0..pre2 {
+                    ops.push(Op::TryRecv { rx: 0 });
+                }
+                ops.push(if unsub2 { Op::UnsubRx { rx: 0 } } else { Op::DropRx { rx: 0 } });
+                progs.push(Prog { ops, ret: false });
+            }
             if third && bcast {
                 let p = progs.len() as u8;
                 let s = take(&mut table, "T");
                 main.push(Op::Spawn { prog: p, tx: vec![], rx: vec![s] });
-                progs.push(Prog { ops: vec![Op::Drain { rx: 0, how: hows[1], extra: 0 }], ret: false });
+                let mut ops = Vec::new();
+                for _ in 0..side_adds {
+                    ops.push(Op::AddStream { rx: 0 });
+                    ops.push(Op::DropRx { rx: 65535 });
+                }
+                ops.push(Op::Drain { rx: 0, how: hows[1], extra: 0 });
+                progs.push(Prog { ops, ret: false });
             }
             main.push(Op::JoinAll);
             progs[0].ops = main;
@@ -1014,11 +1106,11 @@ fn mpmc_round(r: &[Op], flavour: Flavour) -> Vec<Op> {
 // ---- churn scenarios (C16) -----------------------------------------------------------------
 
 pub fn churn_scenario(opts: ExecOpts, rounds_max: usize) -> BoxedStrategy<Scenario> {
-    churn_scenario_with(opts, rounds_max, wait_any())
+    churn_scenario_with(opts, rounds_max, wait_any(), FutMode::Mixed)
 }
 
-pub fn churn_scenario_with(opts: ExecOpts, rounds_max: usize, wait: BoxedStrategy<WaitKind>) -> BoxedStrategy<Scenario> {
-    let q = qcfg(BOTH, FutMode::Mixed, prop_oneof![Just(1u8), Just(2u8)].boxed(), wait);
+pub fn churn_scenario_with(opts: ExecOpts, rounds_max: usize, wait: BoxedStrategy<WaitKind>, fut: FutMode) -> BoxedStrategy<Scenario> {
+    let q = qcfg(BOTH, fut, prop_oneof![Just(1u8), Just(2u8)].boxed(), wait);
     let round = wunion(vec![
         // add a stream and drop it again (retires the list twice, a position, a token)
         (5, any::<bool>().prop_map(|u| vec![Op::AddStream { rx: 0 }, if u { Op::UnsubRx { rx: 65535 } } else { Op::DropRx { rx: 65535 } }]).boxed()),
@@ -1219,7 +1311,8 @@ pub fn mem_churn_scenario(opts: ExecOpts, cycle_choices: &'static [u32]) -> Boxe
 /// churn scenarios (many retirements, so that reclamation epochs are opened and the manager
 /// locks are taken often) with solo-run probes inserted at generated positions (C18)
 pub fn probe_churn_scenario(opts: ExecOpts) -> BoxedStrategy<Scenario> {
-    (churn_scenario_with(opts, 24, wait_no_notify()), vec((any::<u16>(), any::<u16>(), 0u8..3), 2..8))
+    // C18 speaks about queues whose wait strategy needs no notification: no futures queues
+    (churn_scenario_with(opts, 24, wait_no_notify(), FutMode::Never), vec((any::<u16>(), any::<u16>(), 0u8..3), 2..8))
         .prop_map(|(mut sc, probes)| {
             for (psel, pos, kind) in probes {
                 let nprog = sc.progs.len() - 1;
